@@ -713,3 +713,66 @@ def write_once_handles(rep, rule, idx, cls_spec):
                 "its ports, the elaborated hardware -- keep using the old one, so the change never reaches them", line=ln)
     if not bad:
         rep.ok(rule, cls.site, f"constructor-owned objects of {cls.qual} are never rebound", f"{sorted(owned)}", nontrivial=bool(owned))
+
+
+# What each constructor / setter refuses: (function, exception, condition over its parameters, what it protects).
+# Confirmed by reading every raise in the constructors and setters of the package; compared as Boolean functions
+# (common.refuses), so rewriting a test does not matter -- dropping or weakening one does.
+PARAM_REFUSALS = [
+    ("memory:MemoryMap.__init__", "ValueError", "not isinstance(addr_width, int) or addr_width <= 0", "address width is a positive integer"),
+    ("memory:MemoryMap.__init__", "ValueError", "not isinstance(data_width, int) or data_width <= 0", "data width is a positive integer"),
+    ("memory:MemoryMap.__init__", "ValueError", "not isinstance(alignment, int) or alignment < 0", "alignment is a non-negative integer"),
+    ("memory:ResourceInfo.__init__", "TypeError", "not isinstance(start, int) or start < 0", "start is a non-negative integer"),
+    ("memory:ResourceInfo.__init__", "TypeError", "not isinstance(end, int) or end <= start", "end lies beyond start"),
+    ("memory:ResourceInfo.__init__", "TypeError", "not isinstance(width, int) or width < 0", "width is a non-negative integer"),
+    ("csr/bus:Signature.__init__", "TypeError", "not isinstance(addr_width, int) or addr_width <= 0", "CSR address width is a positive integer"),
+    ("csr/bus:Signature.__init__", "TypeError", "not isinstance(data_width, int) or data_width <= 0", "CSR data width is a positive integer"),
+    ("csr/bus:Element.Signature.__init__", "TypeError", "not isinstance(width, int) or width < 0", "register width is a non-negative integer"),
+    ("wishbone/bus:Signature.__init__", "TypeError", "not isinstance(addr_width, int) or addr_width < 0", "Wishbone address width is a non-negative integer"),
+    ("wishbone/bus:Signature.__init__", "ValueError", "data_width not in (8, 16, 32, 64)", "Wishbone data width is 8/16/32/64"),
+    ("wishbone/bus:Signature.__init__", "ValueError", "granularity not in (8, 16, 32, 64)", "Wishbone granularity is 8/16/32/64"),
+    ("wishbone/bus:Signature.__init__", "ValueError", "granularity > data_width", "granularity does not exceed the data width"),
+    ("csr/reg:Builder.__init__", "TypeError", "not isinstance(addr_width, int) or addr_width <= 0", "builder address width is a positive integer"),
+    ("csr/reg:Builder.__init__", "TypeError", "not isinstance(data_width, int) or data_width <= 0", "builder data width is a positive integer"),
+    ("csr/reg:Builder.__init__", "TypeError", "not isinstance(granularity, int) or granularity <= 0", "builder granularity is a positive integer"),
+    ("csr/reg:Builder.__init__", "ValueError", "data_width != (data_width // granularity) * granularity", "granularity divides the data width"),
+    ("csr/event:EventMonitor.__init__", "ValueError", "not isinstance(data_width, int) or data_width <= 0", "data width is a positive integer"),
+    ("csr/event:EventMonitor.__init__", "ValueError", "not isinstance(alignment, int) or alignment < 0", "alignment is a non-negative integer"),
+    ("gpio:Peripheral.__init__", "TypeError", "not isinstance(pin_count, int) or pin_count <= 0", "pin count is a positive integer"),
+    ("gpio:Peripheral.__init__", "TypeError", "not isinstance(input_stages, int) or input_stages < 0", "input_stages is a non-negative integer"),
+    ("wishbone/sram:WishboneSRAM.__init__", "TypeError", "not isinstance(size, int) or size <= 0 or size & size-1", "size is a positive power of two"),
+    ("wishbone/sram:WishboneSRAM.__init__", "TypeError", "data_width not in (8, 16, 32, 64)", "data width is 8/16/32/64"),
+    ("wishbone/sram:WishboneSRAM.__init__", "TypeError", "granularity not in (8, 16, 32, 64)", "granularity is 8/16/32/64"),
+    ("wishbone/sram:WishboneSRAM.__init__", "ValueError", "size * granularity < data_width", "the memory holds at least one word"),
+    ("event:Monitor.__init__", "TypeError", "not isinstance(event_map, EventMap)", "the event map is an EventMap"),
+    ("csr/reg:Bridge.__init__", "TypeError", "not isinstance(memory_map, MemoryMap)", "the register map is a MemoryMap"),
+]
+
+
+def param_refusals(rep, rule, idx, only=None):
+    """The domain of accepted parameters: every tabled condition is still refused with the tabled exception type."""
+    from .common import get_fn, refuses
+    n = 0
+    for spec, exc, cond, what in PARAM_REFUSALS:
+        if only is not None and not any(spec.endswith(o) or o in spec for o in only):
+            continue
+        try:
+            c = get_fn(idx, spec)
+        except Exception as e:
+            rep.unk(rule, "-", f"{spec}: {what}", f"function not found: {e}")
+            continue
+        n += 1
+        env = {}
+        # a parameter with a None default that is resolved first (granularity=None -> data_width) is compared after that resolution
+        fe = c.t.final_env
+        for p_ in c.fi.params:
+            v = fe.get(p_)
+            if isinstance(v, tuple) and v != ('name', p_) and v[0] == 'phi':
+                env[p_] = v
+        try:
+            ok, detail = refuses(c, cond, exc, env)
+        except Exception as e:                              # pragma: no cover
+            rep.unk(rule, c.fi.site, f"{what} (else {exc})", f"cannot decide: {e}")
+            continue
+        rep.check(ok, rule, c.fi.site, f"{what} (else {exc})", detail, nontrivial=True)
+    return n
